@@ -23,6 +23,7 @@ from tempfile import TemporaryDirectory
 from threading import RLock
 
 from synced_collections.backends.collection_json import BufferedJSONAttrDict
+from synced_collections.data_types import SyncedCollection
 
 from ._config import (
     _Config,
@@ -530,6 +531,10 @@ class Project:
             raise ValueError("Either statepoint or id must be provided, but not both.")
         elif statepoint is not None:
             # Second best case (Job will update self._sp_cache on init)
+            if isinstance(statepoint, SyncedCollection):
+                # A synced collection (a document, another job's state point)
+                # must be read before it is hashed: it may not be loaded yet.
+                statepoint = statepoint()
             return Job(project=self, statepoint=deepcopy(statepoint))
         try:
             # Optimal case (id is in the state point cache)
